@@ -58,7 +58,7 @@ def main():
     pool = cf.ThreadPoolExecutor(max_workers=10)
 
     # --- MC: design checks and negative configs, side by side ---------------------------------------
-    f_mc = {n: pool.submit(vlib.tlc, MC, "RenderCtxRegistry_%s.cfg" % n, workers=4, timeout=900) for n in ("mcA", "mcB")}
+    f_mc = {n: pool.submit(vlib.tlc, MC, "RenderCtxRegistry_%s.cfg" % n, workers=4, timeout=900) for n in ("mcA", "mcB", "mcC")}
     if thorough:
         f_mc["mcFull"] = pool.submit(vlib.tlc, MC, "RenderCtxRegistry_mcFull.cfg", workers=8, timeout=1500, xmx="8g")
     negA, negB = spec_file("RenderCtxRegistry_negA.cfg"), spec_file("RenderCtxRegistry_negB.cfg")
@@ -69,6 +69,8 @@ def main():
         "sliceKV as coded ([]KeyValue[CSSClass,bool] offers no rules)": ("nA4.cfg", with_repaired(negA.replace('"sharedKeys"', '"asCoded"'), ["KvCompName"])),
         "kvComp as coded (KeyValue[ComponentCSSClass,bool] named unknown-type)": ("nA5.cfg", with_repaired(negA.replace('"sharedKeys"', '"asCoded"'), ["SliceKVRules"])),
         "packageState (registry shared by all contexts)": ("nB1.cfg", negB),
+        "onceKeyedById (rendered once handles remembered by OnceHandle.id: zero-value handles collapse)":
+            ("nC1.cfg", spec_file("RenderCtxRegistry_negC.cfg")),
     }
     negN = spec_file("RenderCtxRegistry_negNonce.cfg")
     negs_exact = {
@@ -80,6 +82,7 @@ def main():
     f_neg = {k: pool.submit(vlib.tlc, MC, fn, files={fn: text}, workers=2, timeout=600) for k, (fn, text) in negs.items()}
     genA0 = pool.submit(vlib.tlc, MC, "RenderCtxRegistry_genA.cfg", workers=1, timeout=900)
     genBf = pool.submit(vlib.tlc, MC, "RenderCtxRegistry_genB.cfg", workers=1, timeout=900)
+    genCf = pool.submit(vlib.tlc, MC, "RenderCtxRegistry_genC.cfg", workers=1, timeout=900)
     # speculative: the predictions for the fully repaired forms (what the probe below usually detects), derived meanwhile
     all_rep = sorted(TAG2REPAIR.values())
     genA1 = pool.submit(vlib.tlc, MC, "gA.cfg", files={"gA.cfg": with_repaired(spec_file("RenderCtxRegistry_genA.cfg"), all_rep)},
@@ -146,6 +149,16 @@ def main():
         raise vlib.InfraError("edge emission B incomplete: %d edges for %d generated states" % (len(edgesB), gB.generated))
     ck.add_tlc(gB, "RenderCtxRegistry_genB (edge emission, 2 contexts x 9 mode combinations)")
     pB = vlib.write_ndjson(os.path.join(sc, "edgesB.ndjson"), edgesB)
+    gC = genCf.result()
+    edgesC = gC.tagged("EDGE")
+    if not gC.ok or len(edgesC) != gC.generated - 3:
+        raise vlib.InfraError("edge emission C incomplete: %d edges for %d generated states" % (len(edgesC), gC.generated))
+    zero_first = [e for e in edgesC if e["lbl"]["a"] == "OnceWithBlock" and e["lbl"]["args"]["h"] in ("z1", "z2")
+                  and any(t["t"] == "body" for t in e["lbl"]["toks"]) and {"z1", "z2"} & set(e["lbl"]["before"])]
+    if not zero_first:
+        raise vlib.InfraError("no emitted edge renders a zero-value once handle for the first time after another zero-value handle")
+    ck.add_tlc(gC, "RenderCtxRegistry_genC (edge emission, once-handle universe: NewOnceHandle x2, zero-value x2, fixed x1)")
+    pC = vlib.write_ndjson(os.path.join(sc, "edgesC.ndjson"), edgesC)
 
     # simulated long histories (with the detected Repaired set)
     num = 1500 if thorough else 250
@@ -168,9 +181,15 @@ def main():
 
     # --- GEN: every edge ----------------------------------------------------------------------------
     vlib.log("replaying %d + %d edges" % (len(edgesA), len(edgesB)))
-    fB = pool.submit(replay, "edges", pB, "B")          # the two replays are independent processes
+    fB = pool.submit(replay, "edges", pB, "B")          # the replays are independent processes
+    fC = pool.submit(replay, "edges", pC, "C")
     sA = vlib.harness_results(ck, replay("edges", pA, "A"))
     sB = vlib.harness_results(ck, fB.result())
+    sC = vlib.harness_results(ck, fC.result())
+    if sC["edges"] != len(edgesC) or (sC["steps"] != 2 * len(edgesC) and ck._nviol == 0 and not ck.known_hit):
+        raise vlib.InfraError("harness replayed %d of %d edges of C (%d steps)" % (sC["edges"], len(edgesC), sC["steps"]))
+    if sC["actions"].get("OnceWithBlock", 0) < 2 * len([e for e in edgesC if e["lbl"]["a"] == "OnceWithBlock"]) and ck._nviol == 0:
+        raise vlib.InfraError("once-handle uses of C not all replayed: %s" % sC["actions"])
     vlib.log("edges replayed")
     if sA["edges"] != len(edgesA) or sB["edges"] != len(edgesB):
         raise vlib.InfraError("harness replayed %d+%d of %d+%d edges" % (sA["edges"], sB["edges"], len(edgesA), len(edgesB)))
@@ -208,24 +227,28 @@ def main():
                      "script_tags_with_expected_nonce": sA["scripts_with_nonce"] + sB["scripts_with_nonce"] + sH["scripts_with_nonce"],
                      "edges_from_states_with_mw_context_after_WithNonce": mw_nonce,
                      "edges_from_states_with_WithNonce_initialised_context": winit})
-    ck.set("edges_replayed", {"A_one_context_all_forms": sA["edges"], "B_two_contexts_all_modes": sB["edges"]})
-    ck.set("real_steps_checked", sA["steps"] + sB["steps"] + sH["steps"])
+    ck.set("edges_replayed", {"A_one_context_all_forms": sA["edges"], "B_two_contexts_all_modes": sB["edges"],
+                              "C_once_handle_universe": sC["edges"]})
+    ck.set("zero_value_handle_first_render_after_another_zero_value_handle_edges", len(zero_first))
+    ck.set("real_steps_checked", sA["steps"] + sB["steps"] + sC["steps"] + sH["steps"])
     ck.set("concretisations", ["hand-made script and class sharing one name", "generated script/css templates"])
     ck.set("longest_replayed_prefix", max(sA["max_path"], sB["max_path"]))
     ck.set("simulated_behaviours", sH["behaviours"])
     ck.set("simulated_steps", sH["steps"])
     ck.set("use_kinds", sA["actions"])
-    ck.set("model_drift_steps", sA["drift"] + sB["drift"] + sH["drift"])
-    ck.set("failing_steps_by_signature", {k: sA["sigs"].get(k, 0) + sB["sigs"].get(k, 0) + sH["sigs"].get(k, 0)
-                                          for k in set(sA["sigs"]) | set(sB["sigs"]) | set(sH["sigs"])})
-    ck.set("traces_validated_against_impl", sA["edges"] + sB["edges"] + sH["behaviours"])
+    ck.set("model_drift_steps", sA["drift"] + sB["drift"] + sC["drift"] + sH["drift"])
+    ck.set("failing_steps_by_signature", {k: sA["sigs"].get(k, 0) + sB["sigs"].get(k, 0) + sC["sigs"].get(k, 0) + sH["sigs"].get(k, 0)
+                                          for k in set(sA["sigs"]) | set(sB["sigs"]) | set(sC["sigs"]) | set(sH["sigs"])})
+    ck.set("traces_validated_against_impl", sA["edges"] + sB["edges"] + sC["edges"] + sH["behaviours"])
     ck.set("exhaustive", True)
     ck.set("bounds", {"A": "1 context x 3 modes x 2 scripts x 2 classes x 3 handles x 122 class expressions x 5 on-attribute sequences x WithNonce applied 0/1 times at any point",
                       "B": "2 contexts x 9 mode combinations x 1 script x 1 class x 2 handles x WithNonce applied 0/1 times to the first context at any point",
+                      "C": "1 context x 3 modes x 1 script x 1 class x once handles {2 from NewOnceHandle, 2 zero-value (var h templ.OnceHandle / new), 1 with fixed component}",
                       "simulation": "%d histories of 40 steps, 2 contexts, all ids, all forms, up to 2 WithNonce per context at random points" % num,
                       "mcFull_history_length": 6 if thorough else None})
     ck.set("rule", "every transition of the reachable registry graphs A and B, each from its source state re-established on the real "
                    "runtime, in 2 concretisations, uses rendered directly / inside a component / inside a child block")
+    ck.assume("a once handle is identified by its address: distinct zero-value handles (id 0) are distinct handles")
     ck.assume("strings, constant classes and maps of names carry no CSS component (DESIGN.md appendix); they are not uses")
     ck.assume("the invariants are checked as step properties over (ids defined so far in the context's document, tokens of the step); "
               "the ghost set is tied to the real output edge by edge")
